@@ -170,6 +170,14 @@ Definition ent_small (name : bytes) : option bytes :=
   else if is [99;111;112;121;59] || is [99;111;112;121] then Some [194;169]
   else None.
 
+(* the lookup over a full table (name, UTF-8 bytes) such as Gen/HtmlEntity.v, which the
+   translator extracts from the html/entity.go of the toolchain murex is built with *)
+Fixpoint ent_of_table (t : list (bytes * bytes)) (name : bytes) : option bytes :=
+  match t with
+  | [] => None
+  | (n, v) :: t' => if bytes_eqb name n then Some v else ent_of_table t' name
+  end.
+
 (* ------------------------------------------------------------------ *)
 (* url.PathEscape / url.PathUnescape  (mode encodePathSegment)           *)
 
